@@ -14,11 +14,41 @@ CFG = dict(
     trusted=T_COMMON + [
         "hand-written pure models PolyVerif/Model/{Mesh,MeshOps}.lean of modeling/mesh.go and modeling/meshops/*.go; tied to the "
         "code on every run by bit-exact comparison of complete result meshes on generated inputs"],
-    residue=["value maps of SmoothNormals / FlatNormals / LaplacianSmooth are definitions tied bit-for-bit (Laplacian: 2^20 ulps or 1e-6 absolute, Go map order makes the float sum order-dependent) to the code; "
-             "only their frame is proved; Laplacian order-independence over a commutative ring not proved",
+    residue=["VALUE CLAUSES, what is definitional: translate_spec, scaleAbout_spec, scaleMesh_spec, rotate_spec, applyTRS_spec, center_spec, normalize_spec state Changed k f with f the very "
+             "function of Model/MeshTransforms.lean - their content is the FRAME (topology, indices, materials, every other attribute untouched) and WHICH function is applied; that "
+             "function is tied to Go bit-for-bit by correspondence (changed_spec re-runs the model). Independent content: Props/C03Values.lean characterises the functions over R without "
+             "reference to how they are computed (translate_post, scaleAbout_post, rotate_post / rotate_unit_post via C17's theorems about the regenerated Quaternion.Rotate, "
+             "applyTRS_post, center_post, normalize_post) and the oracle c03.holds.post_spec evaluates these predicates on the IMPLEMENTATION's output (Float, relative tolerance 1e-9, "
+             "non-finite cases skipped). center_post / normalize_post are stated for the fold started at the first element / for the attained longest length (R has no infinity; on a "
+             "non-empty array IEEE min(+Inf, x) = x makes them the same fold)",
+             "value maps of SmoothNormals / FlatNormals / LaplacianSmooth are definitions tied bit-for-bit (Laplacian: 2^20 ulps or 1e-6 absolute, Go map order makes the float sum "
+             "order-dependent) to the code; only their frame is proved; Laplacian order-independence over a commutative ring not proved",
+             "composition weld-after-unweld: not a theorem (it would follow from weld_spec + unweld_spec + unweld_wf by relating the survivors of the two index lists); covered by bit-exact "
+             "correspondence of both welds and the WeldSpec oracle on each; flip twice is a theorem (flip_flip)",
+             "split parts: material identity is the *Material pointer in Go (model: a Nat id; the harness gives every material a distinct Name and compares by it, SetMaterial copies "
+             "the struct so pointers differ after the split); a nil Material in a range makes SplitOnUniqueMaterials dereference nil (runtime panic) - the harness never generates nil "
+             "materials; ranges shorter than the triangle list: index-out-of-range panic recovered by the harness and counted as rejection (model: none)",
              "crop_spec is for identity-indexed point clouds: CropFloat3Attribute ignores the incoming indices (observation, see notes/C03.md)",
+             "the weld theorems hold for every key function; that the Go key is Vector3ToInt (with the platform-specific int(NaN)) is part of the driver, checked by correspondence only",
              "IEEE rounding of the transform maps; Tri.Area3D (keep decision passed to the model); SliceByPlane, ScaleAttributeAlongNormal, 2-D variants, "
-             "SmoothNormalsImplicitWeld, LaplacianSmoothAlongAxis not modelled"],
+             "SmoothNormalsImplicitWeld, LaplacianSmoothAlongAxis, colour ops not modelled (C02 runs them through the WF oracle only)"],
     assumptions=["float64 arithmetic in Go on amd64 is IEEE-754 without FMA contraction (transform maps are compared bit-for-bit)",
                  "Go int(float64) of NaN / out-of-range values is math.MinInt64 (amd64 CVTTSD2SI), mirrored by the driver's weld key"],
+    manifest=dict(
+        text="Lean 4 theorems for every payload type: full contracts - each the same decidable predicate the oracle evaluates on implementation output - for unweld (same corners, "
+             "identity indices, exactly one vertex per index; idempotent), remove unreferenced (+ all referenced), flip (+ involution), to point cloud, append (concatenated corners, "
+             "zero fill) and repeat, filter, crop (identity-indexed clouds), remove null faces, weld (survivors = triangles with three distinct keys; each corner carries the tuple of the "
+             "first vertex of its key class; every vertex referenced), split by material (one part per distinct material in order of first appearance, each exactly its triangles); "
+             "rejection branches as exact iff statements. Transforms: the FRAME (topology, indices, materials and every other attribute untouched) for set/modify/map, translate, scale, "
+             "rotate, apply-TRS, centre, normalise, smooth/flat normals, Laplacian; the 'stated map' theorems name the applied function, which is definitional and tied to Go bit-for-bit; "
+             "independent value theorems over R: translation keeps differences, scale-about-o fixes o and multiplies offsets, rotation (the regenerated C17 function) scales lengths and "
+             "distances by |q|^2 (preserves them for unit q), TRS, centring puts the bounding-box midpoint at 0, normalising gives the longest vector length 1 - evaluated on the "
+             "implementation's output by a tolerance oracle. Tie: bit-exact comparison of the complete result mesh for 22 operations on generated meshes (6 topologies, attribute mixes "
+             "over widths 1-4, shared/unreferenced/empty index patterns, material ranges of all shapes, non-finite values), contract and post-condition predicates on the "
+             "implementation's outputs.",
+        note="Trusted: Lean kernel + 3 axioms; harness; translator (Gen/Transform.lean). Not theorems: the value maps of smooth normals, flat normals and Laplacian (definitions "
+             "corresponded bit-exactly / within a stated tolerance for Laplacian's map-order summation; only their frame is proved); Laplacian order independence; weld-after-unweld "
+             "composition (correspondence only); IEEE rounding. Observations: Crop ignores the incoming index buffer on non-identity clouds (result still well-formed); split compares "
+             "materials by pointer and dereferences a nil Material (not generated).",
+        technique="Lean 4 proof (per-corner content contracts, frame lemmas, value post-conditions over R reusing C17) + bit-exact whole-mesh correspondence + compiled contract and post-condition oracles"),
 )
